@@ -136,7 +136,14 @@ def install():
 
     if _installed:
         return
-    for mod in (ford.sourceform, ford.graphs, ford.fortran_project, ford.output, toposort):
+    import ford._markdown
+    import ford.external_project
+    import ford.pagetree
+    import ford.reader
+    import ford.utils
+
+    for mod in (ford.sourceform, ford.graphs, ford.fortran_project, ford.output, toposort, ford.external_project, ford.pagetree, ford._markdown,
+                ford.reader, ford.utils, ford.settings, ford):
         mod.__dict__["set"] = ChoiceSet
         _installed.append(mod)
     # the order in which the file system enumerates a directory (os.listdir in the page tree) is owned too
